@@ -966,9 +966,9 @@ def run(ctx):
     oracle_divergence(ctx, cuqi, rng, 3 if not thorough else 20)
     # ---- session-3 extension streams (kept last: the random streams of the generators above are unchanged) ----
     from harness.props import c08_abort, c08_stat, c08_history, c08_config, c08_quartic, c08_gibbs
-    c08_history.history_stream(ctx, cuqi, rng, 70 if not thorough else 800)
-    c08_abort.interrupt_stream(ctx, cuqi, rng, 100 if not thorough else 1000)
-    c08_stat.tree_stat_stream(ctx, cuqi, rng, 140 if not thorough else 2000, step_n=120 if not thorough else 1500)
-    c08_quartic.quartic_stream(ctx, cuqi, rng, 80 if not thorough else 1000)
+    c08_history.history_stream(ctx, cuqi, rng, 60 if not thorough else 800)
+    c08_abort.interrupt_stream(ctx, cuqi, rng, 80 if not thorough else 1000)
+    c08_stat.tree_stat_stream(ctx, cuqi, rng, 100 if not thorough else 2000, step_n=80 if not thorough else 1500)
+    c08_quartic.quartic_stream(ctx, cuqi, rng, 50 if not thorough else 1000)
     c08_config.config_stream(ctx, cuqi, rng)
     c08_gibbs.gibbs_stream(ctx, cuqi, rng, 4 if not thorough else 40)
